@@ -25,6 +25,8 @@ import (
 	"os"
 	"path/filepath"
 	"runtime"
+	"runtime/debug"
+	"runtime/pprof"
 	"sort"
 	"strings"
 	"time"
@@ -84,6 +86,17 @@ type runOut struct {
 	assets []app.VerifC15Asset
 	err    error
 	panic  string
+}
+
+// memdbg prints the live heap (development aid, C15_MEMDBG=1).
+func memdbg(where string) {
+	if os.Getenv("C15_MEMDBG") == "" {
+		return
+	}
+	runtime.GC()
+	var m runtime.MemStats
+	runtime.ReadMemStats(&m)
+	fmt.Fprintf(os.Stderr, "mem %-40s heapInuse=%d MB sys=%d MB\n", where, m.HeapInuse>>20, m.Sys>>20)
 }
 
 // panicSite returns the innermost livesim2 function on the stack of a recovered panic.
@@ -794,6 +807,9 @@ func sameTree(a, b map[string][]byte) bool {
 }
 
 func runC15(c *lib.Ctx) error {
+	// ~10^4 responses of up to 300 KB are produced and dropped: keep the heap small on a loaded machine
+	debug.SetGCPercent(50)
+	debug.SetMemoryLimit(768 << 20)
 	scratch := filepath.Join("/verif/.scratch", fmt.Sprintf("%d", os.Getpid()))
 	if err := os.MkdirAll(scratch, 0o755); err != nil {
 		return err
@@ -814,7 +830,10 @@ func runC15(c *lib.Ctx) error {
 	if c.Thorough() {
 		nDamage, nRandom, nGroups = 9, 2000, 150
 	}
-	for _, l := range structured {
+	for i, l := range structured {
+		if i%40 == 0 {
+			memdbg(fmt.Sprintf("structured %d", i))
+		}
 		c.Count("layout:" + l.Note)
 		s.runLayouts([]layout{l}, rng, nDamage, nil)
 	}
@@ -850,6 +869,7 @@ func runC15(c *lib.Ctx) error {
 		c.Res.Distribution["assets:"+k] += v
 	}
 
+	memdbg("after part S")
 	tS := time.Since(t0)
 	// Part B: complete servers over the bundled assets
 	nB, err := runBundled(c, scratch, rng)
@@ -858,6 +878,12 @@ func runC15(c *lib.Ctx) error {
 		return err
 	}
 
+	if pf := os.Getenv("C15_HEAPPROF"); pf != "" {
+		if f, err := os.Create(pf); err == nil {
+			_ = pprof.WriteHeapProfile(f)
+			f.Close()
+		}
+	}
 	c.Res.Evaluations = s.nCases + nB
 	c.Res.ModelCases = s.nCases
 	c.Res.DistinctNontrivial = len(s.distinct) + nBDistinct
